@@ -6,7 +6,8 @@
    instance_catalog.py:60-87 and component_catalog.py:65-184, 232-254), the sort inside map_caps is
    Base/PySort.v (CPython's list.sort run with Capacities.__lt__). *)
 From Coq Require Import List ZArith NArith Bool String.
-From FIM Require Import Base.Str Base.PySort Gen.Catalog Model.Catalog18 Proofs.Catalog18Sizing Proofs.Catalog18Comp.
+From FIM Require Import Base.Str Base.PySort Gen.Catalog Gen.CapsGen Model.Caps Model.Catalog18.
+From FIM Require Import Proofs.Catalog18Sizing Proofs.Catalog18Comp Proofs.Catalog18Lt.
 Import ListNotations.
 Open Scope Z_scope.
 
@@ -76,6 +77,17 @@ Print Assumptions C18_name_agrees.
 Theorem C18_names_unique : NoDup (map fst catalogue).
 Proof. exact catalogue_names_unique. Qed.
 Print Assumptions C18_names_unique.
+
+(* the order handed to list.sort (clt3) and the equality used by values.index (ceq3) are Capacities.__lt__ and
+   Capacities.__eq__ as REGENERATED from capacities_labels.py (Gen/CapsGen.v, Model/Caps.v of C15) on
+   Capacities(core=, ram=, disk=) objects *)
+Theorem C18_lt_is_capacities_lt : forall a b, clt3 a b = clt (embed a) (embed b).
+Proof. exact clt3_is_capacities_lt. Qed.
+Print Assumptions C18_lt_is_capacities_lt.
+
+Theorem C18_eq_is_capacities_eq : forall a b, ceq3 a b = ceq (embed a) (embed b).
+Proof. exact ceq3_is_capacities_eq. Qed.
+Print Assumptions C18_eq_is_capacities_eq.
 
 (* ---------------- components ---------------- *)
 
